@@ -87,7 +87,7 @@ func runC01(w *World, r *Report) {
 	defer r.importRules(runC03, "C01-", map[string]bool{"C03-R4": true})
 	defer r.importRules(runC13, "C01-", map[string]bool{"C13-R3": true})
 	// tick-only packs carry the stream's checkpoint position: the positions of an output pack are the pack's own copies
-	defer r.importRules(runC02, "C01-", map[string]bool{"C02-R2": true})
+	defer r.importRules(runC02, "C01-", map[string]bool{"C02-R2": true, "C02-R11": true})
 	r.Rule("C01-R2", "attribution", "innerHandleReplicateMsg copies CollectionID, CollectionName, PChannelName, TaskID from its input message to the pack it enqueues; the stream loop builds its input with its own sourceInfo.PChannel, targetInfo.CollectionName, collectionID and taskID", 8)
 	r.Rule("C01-R3", "payload write-whitelist", "stores into fields of messages that were read from a pack (any function of core/reader) touch only CollectionID, PartitionID, PartitionIDs, ShardName, BeginTimestamp, EndTimestamp, Timestamps, MsgPosition", 20)
 	r.Rule("C01-R4", "append at most once, only what was read", "no path through one iteration of the message loop passes two appends; the appended value is the range element or copyDropTypeMsg of it", 3)
